@@ -356,10 +356,14 @@ def run_check(mod, tier, seed):
     # 2. build proof modules + driver
     build_log = {}
     try:
-        targets = lean_targets + ([driver_exe] if driver_exe else [])
+        extra_targets = list(getattr(mod, 'EXTRA_TARGETS', []))     # further executables a stream runs (e.g. a second driver)
+        targets = lean_targets + ([driver_exe] if driver_exe else []) + extra_targets
         build_log = lake_build(targets)
     except subprocess.TimeoutExpired:
         raise Infra('lake build timed out')
+    for tgt in extra_targets:
+        ok, log = build_log.get(tgt, (False, 'not built'))
+        ctx.obligation(f'build:{tgt}', ok, ' | '.join([ln for ln in log.splitlines() if 'error' in ln][:5]))
     for tgt in lean_targets:
         ok, log = build_log.get(tgt, (False, 'not built'))
         errs = [ln for ln in log.splitlines() if 'error' in ln][:5]
@@ -526,6 +530,36 @@ def finish(ctx, mod, stream_error=None):
 def run_extract_only():
     from extract import run_extract
     return run_extract()
+
+
+_FRESH_SRC = r"""
+import json, sys
+sys.path.insert(0, sys.argv[1])
+from bare_script import parser
+out = []
+for kind, text in json.load(sys.stdin):
+    try:
+        if kind == 'script':
+            out.append(['ok', parser.parse_script(text)])
+        else:
+            out.append(['ok', parser.parse_expression(text)])
+    except parser.BareScriptParserError as exc:
+        out.append(['err', exc.error, exc.line, exc.column_number, exc.line_number] if kind == 'script' else ['err', exc.error, exc.column_number])
+    except Exception as exc:
+        out.append(['exc', type(exc).__name__])
+json.dump(out, sys.stdout)
+"""
+
+
+def fresh_parse(items):
+    """[(kind 'script'|'expr', text)] parsed IN ORDER by a fresh interpreter process (no state from this process);
+    -> results shaped like C10.run_parse / run_expr (lists instead of tuples)."""
+    src = os.path.join(REPO, 'src')
+    res = subprocess.run([sys.executable, '-c', _FRESH_SRC, src], input=json.dumps(list(items)), capture_output=True, text=True,
+                         timeout=600, check=False)
+    if res.returncode != 0:
+        raise Infra('fresh parser process failed: ' + res.stderr[-400:])
+    return json.loads(res.stdout)
 
 
 def impl():
